@@ -4,6 +4,9 @@ CONSTANTS MaxLen = 2
   Starts <- StartsB
   Xs = {2}
   Nested = TRUE
+  Ys <- NoData
+  Extra <- NoElems
+  Variant = "doc"
   CopyVarContext = TRUE
   ExtendByCompose = TRUE
 INVARIANT DataEq
